@@ -3,14 +3,9 @@
 package sample
 
 import (
-	"encoding/json"
 	"fmt"
 	"os"
-	"path/filepath"
-	"strings"
-	"sync"
 	"testing"
-	"time"
 
 	"github.com/honeycombio/refinery/config"
 	"github.com/honeycombio/refinery/internal/verifkit"
@@ -20,7 +15,7 @@ import (
 )
 
 // Binding of spec/Samplers.tla (properties C12 and C13) to the real
-// sample.SamplerFactory.
+// sample.SamplerFactory (the observation is described in c12_export.go).
 //
 // Real: the rules files (written as YAML, loaded and validated by
 // config.NewConfig, switched with Config.Reload, which fires the reload
@@ -28,414 +23,43 @@ import (
 // dynsampler registry, ClearDynsamplers, updatePeerCounts registered as the
 // peers callback and started the way RedisPubsubPeers/FilePeers do: `go cb()`),
 // every sampler type, the dynsampler-go instances.
-// Emulated (three lines of collect each, the real ones are exercised by the
-// collect-level stage): the collector's reload channel, the reloadConfigs loop
-// that signals the workers, the workers' datasetSamplers maps.
-//
-// Observation: for every sampler a worker holds, the dynsampler object behind
-// it (pointer identity, read in-package), whether the registry still holds
-// that object, and its GoalThroughputPerSec. A pointer is named by the
-// definition of the slot in which it was first seen and the number of
-// ClearDynsamplers calls before it; a second pointer that would get the same
-// name gets dup > 0, which no specification state has.
-
-// ---- scenario (params of the graph) ---------------------------------------
-
-type c12Leaf struct {
-	T string `json:"t"`
-	G int    `json:"g"`
-	U bool   `json:"u"`
-	N int    `json:"n"`
-	F string `json:"f"`
-}
-
-type c12Top struct {
-	Rules  bool      `json:"rules"`
-	Leaves []c12Leaf `json:"leaves"`
-}
-
-type c12Def struct {
-	D string  `json:"d"`
-	P int     `json:"p"`
-	L c12Leaf `json:"l"`
-}
-
-type c12Scenario struct {
-	I     int               `json:"i"`
-	A     map[string]c12Top `json:"a"`
-	B     map[string]c12Top `json:"b"`
-	Names map[string]string `json:"names"` // destination -> environment/dataset name used in the rules file
-	Tab   []c12Def          `json:"tab"`
-}
-
-type c12Params struct {
-	Workers        []string          `json:"workers"`
-	Dests          []string          `json:"dests"`
-	Scenarios      []c12Scenario     `json:"scenarios"`
-	Faithful       bool              `json:"faithful"`
-	ShareIdentical bool              `json:"shareIdentical"`
-}
-
-var c12Fields = map[string][]string{"f": {"svc"}, "g": {"svc", "op"}}
-
-// c12LeafYAML renders one leaf sampler; indent is the indentation of the
-// sampler-type line.
-func c12LeafYAML(l c12Leaf, indent string) string {
-	var b strings.Builder
-	w := func(format string, a ...any) { b.WriteString(indent + fmt.Sprintf(format, a...) + "\n") }
-	fl := "[" + strings.Join(c12Fields[l.F], ", ") + "]"
-	switch l.T {
-	case "de":
-		w("DeterministicSampler:")
-		w("  SampleRate: %d", l.G)
-	case "dy":
-		w("DynamicSampler:")
-		w("  SampleRate: %d", l.G)
-		w("  FieldList: %s", fl)
-		if l.N == 1 {
-			w("  MaxKeys: 77")
-		}
-		if l.N == 2 {
-			w("  ClearFrequency: 45s")
-			w("  UseTraceLength: true")
-		}
-	case "ed":
-		w("EMADynamicSampler:")
-		w("  GoalSampleRate: %d", l.G)
-		w("  FieldList: %s", fl)
-		if l.N == 1 {
-			w("  MaxKeys: 77")
-		}
-		if l.N == 2 {
-			w("  AdjustmentInterval: 20s")
-			w("  Weight: 0.4")
-			w("  BurstMultiple: 3")
-		}
-	case "tt":
-		w("TotalThroughputSampler:")
-		w("  GoalThroughputPerSec: %d", l.G)
-		w("  UseClusterSize: %v", l.U)
-		w("  FieldList: %s", fl)
-		if l.N == 1 {
-			w("  MaxKeys: 77")
-		}
-		if l.N == 2 {
-			w("  ClearFrequency: 45s")
-			w("  UseTraceLength: true")
-		}
-	case "et":
-		w("EMAThroughputSampler:")
-		w("  GoalThroughputPerSec: %d", l.G)
-		w("  UseClusterSize: %v", l.U)
-		w("  FieldList: %s", fl)
-		if l.N == 1 {
-			w("  MaxKeys: 77")
-		}
-		if l.N == 2 {
-			w("  AdjustmentInterval: 20s")
-			w("  Weight: 0.4")
-			w("  InitialSampleRate: 7")
-		}
-	case "wt":
-		w("WindowedThroughputSampler:")
-		w("  GoalThroughputPerSec: %d", l.G)
-		w("  UseClusterSize: %v", l.U)
-		w("  FieldList: %s", fl)
-		if l.N == 1 {
-			w("  MaxKeys: 77")
-		}
-		if l.N == 2 {
-			w("  UpdateFrequency: 2s")
-			w("  LookbackFrequency: 40s")
-		}
-	}
-	return b.String()
-}
-
-func c12RulesYAML(file map[string]c12Top, dests []string, names map[string]string) string {
-	var b strings.Builder
-	b.WriteString("RulesVersion: 2\nSamplers:\n  __default__:\n    DeterministicSampler:\n      SampleRate: 1\n")
-	for _, d := range dests {
-		top := file[d]
-		if !top.Rules && top.Leaves[0].T == "df" {
-			continue // destination absent from the file
-		}
-		b.WriteString(fmt.Sprintf("  %q:\n", names[d]))
-		if !top.Rules {
-			b.WriteString(c12LeafYAML(top.Leaves[0], "    "))
-			continue
-		}
-		b.WriteString("    RulesBasedSampler:\n      Rules:\n")
-		for i, l := range top.Leaves {
-			b.WriteString(fmt.Sprintf("        - Name: rule%d\n          Conditions:\n            - Field: r\n              Operator: \"=\"\n              Value: %d\n              Datatype: int\n          Sampler:\n", i+1, i+1))
-			b.WriteString(c12LeafYAML(l, "            "))
-		}
-	}
-	return b.String()
-}
-
-// ---- peers: membership the harness controls, callbacks started like the real ones
-
-type c12Peers struct {
-	mu        sync.Mutex
-	n         int
-	callbacks []func()
-}
-
-func (p *c12Peers) GetPeers() ([]string, error) {
-	p.mu.Lock()
-	defer p.mu.Unlock()
-	out := make([]string, p.n)
-	for i := range out {
-		out[i] = fmt.Sprintf("http://peer%d:8081", i)
-	}
-	return out, nil
-}
-func (p *c12Peers) GetInstanceID() (string, error) { return "http://peer0:8081", nil }
-func (p *c12Peers) RegisterUpdatedPeersCallback(cb func()) {
-	p.mu.Lock()
-	defer p.mu.Unlock()
-	p.callbacks = append(p.callbacks, cb)
-}
-func (p *c12Peers) Ready() error { return nil }
-func (p *c12Peers) Start() error { return nil }
-func (p *c12Peers) set(n int) {
-	p.mu.Lock()
-	p.n = n
-	p.mu.Unlock()
-}
-
-// fire starts every registered callback in its own goroutine (as
-// RedisPubsubPeers.checkHash and FilePeers do) and waits for them.
-func (p *c12Peers) fire() {
-	p.mu.Lock()
-	cbs := append([]func(){}, p.callbacks...)
-	p.mu.Unlock()
-	var wg sync.WaitGroup
-	for _, cb := range cbs {
-		wg.Add(1)
-		go func() {
-			defer wg.Done()
-			cb()
-		}()
-	}
-	wg.Wait()
-}
-
-// ---- observation of one sampler --------------------------------------------
-
-// c12Slot is one leaf sampler object: the dynsampler behind it (nil for a
-// deterministic sampler), the leaf it was configured with, its goal.
-type c12Slot struct {
-	ptr  any // the *dynsampler.X, or nil
-	leaf c12Leaf
-	goal int
-	tput bool
-	bad  string
-}
-
-func c12FieldsID(fl []string) string {
-	if len(fl) == 2 {
-		return "g"
-	}
-	return "f"
-}
-
-func c12LeafSlot(s Sampler) c12Slot {
-	switch x := s.(type) {
-	case *DeterministicSampler:
-		return c12Slot{leaf: c12Leaf{T: "de", G: x.Config.SampleRate, F: "f"}}
-	case *DynamicSampler:
-		l := c12Leaf{T: "dy", G: int(x.Config.SampleRate), F: c12FieldsID(x.Config.FieldList)}
-		if x.Config.MaxKeys == 77 {
-			l.N = 1
-		} else if x.Config.UseTraceLength {
-			l.N = 2
-		}
-		return c12Slot{ptr: x.dynsampler, leaf: l}
-	case *EMADynamicSampler:
-		l := c12Leaf{T: "ed", G: x.Config.GoalSampleRate, F: c12FieldsID(x.Config.FieldList)}
-		if x.Config.MaxKeys == 77 {
-			l.N = 1
-		} else if x.Config.Weight == 0.4 {
-			l.N = 2
-		}
-		return c12Slot{ptr: x.dynsampler, leaf: l}
-	case *TotalThroughputSampler:
-		l := c12Leaf{T: "tt", G: x.Config.GoalThroughputPerSec, U: x.Config.UseClusterSize, F: c12FieldsID(x.Config.FieldList)}
-		if x.Config.MaxKeys == 77 {
-			l.N = 1
-		} else if x.Config.UseTraceLength {
-			l.N = 2
-		}
-		return c12Slot{ptr: x.dynsampler, leaf: l, goal: x.dynsampler.GoalThroughputPerSec, tput: true}
-	case *EMAThroughputSampler:
-		l := c12Leaf{T: "et", G: x.Config.GoalThroughputPerSec, U: x.Config.UseClusterSize, F: c12FieldsID(x.Config.FieldList)}
-		if x.Config.MaxKeys == 77 {
-			l.N = 1
-		} else if x.Config.Weight == 0.4 {
-			l.N = 2
-		}
-		return c12Slot{ptr: x.dynsampler, leaf: l, goal: x.dynsampler.GoalThroughputPerSec, tput: true}
-	case *WindowedThroughputSampler:
-		l := c12Leaf{T: "wt", G: x.Config.GoalThroughputPerSec, U: x.Config.UseClusterSize, F: c12FieldsID(x.Config.FieldList)}
-		if x.Config.MaxKeys == 77 {
-			l.N = 1
-		} else if time.Duration(x.Config.UpdateFrequency) == 2*time.Second {
-			l.N = 2
-		}
-		g := x.dynsampler.GoalThroughputPerSec
-		sl := c12Slot{ptr: x.dynsampler, leaf: l, goal: int(g), tput: true}
-		if g != float64(int(g)) {
-			sl.bad = fmt.Sprintf("fractional goal %v", g)
-		}
-		return sl
-	}
-	return c12Slot{bad: fmt.Sprintf("unexpected sampler %T", s)}
-}
-
-// c12Slots lists the leaf samplers of a top-level sampler in rule order.
-func c12Slots(s Sampler) (rules bool, out []c12Slot) {
-	rb, ok := s.(*RulesBasedSampler)
-	if !ok {
-		return false, []c12Slot{c12LeafSlot(s)}
-	}
-	for _, r := range rb.Config.Rules {
-		if r.Sampler == nil {
-			continue
-		}
-		ds, ok := rb.samplers[r.String()]
-		if !ok {
-			out = append(out, c12Slot{bad: "rule " + r.Name + " has no downstream sampler"})
-			continue
-		}
-		out = append(out, c12LeafSlot(ds))
-	}
-	return true, out
-}
-
-// ---- the harness --------------------------------------------------------------
-
-type c12Name struct{ cr, ep, dup int }
-
-type c12Loaded struct {
-	cfg     config.Config
-	rules   string // path of the rules file
-	current string // "a" or "b"
-	onLoad  func() // reload callback target (nil: ignore)
-}
+// Emulated (three lines of collect each; the real ones are driven by the
+// collect-level stage, harness/collect/c12_collect_test.go): the collector's
+// reload channel, the reloadConfigs loop that signals the workers, the workers'
+// datasetSamplers maps.
 
 type c12Harness struct {
-	params *c12Params
+	params *C12Params
 	dir    string
-	loaded map[int]*c12Loaded
+	loaded map[int]*C12Loaded
+	onLoad func() // target of the reload callbacks of every loaded config
 
-	sc        *c12Scenario
-	ld        *c12Loaded
+	sc        *C12Scenario
+	ld        *C12Loaded
 	factory   *SamplerFactory
 	met       *metrics.MockMetrics
-	peers     *c12Peers
+	peers     *C12Peers
+	namer     *C12Namer
 	reloadSig bool
 	toSignal  int
 	pending   map[string]bool
 	local     map[string]map[string]Sampler
 	clears    int
-	names     map[any]c12Name
-	used      map[[2]int]int
 	steps     int
 	panicMsg  string
 }
 
-func (h *c12Harness) file(which string) map[string]c12Top {
-	if which == "a" {
-		return h.sc.A
-	}
-	return h.sc.B
-}
-
-func (h *c12Harness) load(sci int) (*c12Loaded, error) {
-	if ld, ok := h.loaded[sci]; ok {
-		return ld, nil
-	}
-	if h.dir == "" {
-		d, err := os.MkdirTemp("", "c12verif")
-		if err != nil {
-			return nil, err
-		}
-		h.dir = d
-	}
-	cp := filepath.Join(h.dir, fmt.Sprintf("config%d.yaml", sci))
-	rp := filepath.Join(h.dir, fmt.Sprintf("rules%d.yaml", sci))
-	if err := os.WriteFile(cp, []byte("General:\n  ConfigurationVersion: 2\n"), 0o644); err != nil {
-		return nil, err
-	}
-	if err := os.WriteFile(rp, []byte(c12RulesYAML(h.sc.A, h.params.Dests, h.sc.Names)), 0o644); err != nil {
-		return nil, err
-	}
-	// Both rules files of the scenario must be files refinery accepts with full
-	// validation (startup and reload). The walks then use a second Config object
-	// over the same files that skips re-validation on every reload (validation
-	// parses the embedded metadata each time and would dominate the run).
-	vopts, err := config.NewCmdEnvOptions([]string{"--config", cp, "--rules_config", rp})
-	if err != nil {
-		return nil, err
-	}
-	vc, err := config.NewConfig(vopts)
-	if err != nil {
-		return nil, fmt.Errorf("scenario %d file a rejected by config validation: %w", sci, err)
-	}
-	if err := os.WriteFile(rp, []byte(c12RulesYAML(h.sc.B, h.params.Dests, h.sc.Names)), 0o644); err != nil {
-		return nil, err
-	}
-	if err := vc.Reload(); err != nil {
-		return nil, fmt.Errorf("scenario %d file b rejected by config validation on reload: %w", sci, err)
-	}
-	if err := os.WriteFile(rp, []byte(c12RulesYAML(h.sc.A, h.params.Dests, h.sc.Names)), 0o644); err != nil {
-		return nil, err
-	}
-	opts, err := config.NewCmdEnvOptions([]string{"--no-validate", "--config", cp, "--rules_config", rp})
-	if err != nil {
-		return nil, err
-	}
-	c, err := config.NewConfig(opts)
-	if err != nil {
-		return nil, err
-	}
-	ld := &c12Loaded{cfg: c, rules: rp, current: "a"}
-	c.RegisterReloadCallback(func(string, string) {
-		if ld.onLoad != nil {
-			ld.onLoad()
-		}
-	})
-	h.loaded[sci] = ld
-	return ld, nil
-}
-
-func (h *c12Harness) switchTo(which string) error {
-	if h.ld.current == which {
-		return nil
-	}
-	if err := os.WriteFile(h.ld.rules, []byte(c12RulesYAML(h.file(which), h.params.Dests, h.sc.Names)), 0o644); err != nil {
-		return err
-	}
-	if err := h.ld.cfg.Reload(); err != nil {
-		return fmt.Errorf("config.Reload: %w", err)
-	}
-	h.ld.current = which
-	return nil
-}
-
 func (h *c12Harness) Reset(init map[string]any) error {
 	if h.params == nil {
-		raw, err := json.Marshal(init["params"])
+		p, err := C12ParseParams(init)
 		if err != nil {
 			return err
 		}
-		h.params = &c12Params{}
-		if err := json.Unmarshal(raw, h.params); err != nil {
+		h.params = p
+		h.loaded = map[int]*C12Loaded{}
+		if h.dir, err = os.MkdirTemp("", "c12verif"); err != nil {
 			return err
 		}
-		h.loaded = map[int]*c12Loaded{}
 	}
 	if h.factory != nil {
 		h.factory.Stop()
@@ -445,72 +69,42 @@ func (h *c12Harness) Reset(init map[string]any) error {
 		return fmt.Errorf("scenario index %d out of range", sci)
 	}
 	h.sc = &h.params.Scenarios[sci-1]
-	ld, err := h.load(sci)
-	if err != nil {
-		return err
+	h.onLoad = nil
+	ld, ok := h.loaded[sci]
+	if !ok {
+		var err error
+		if ld, err = C12Load(h.dir, h.sc, h.params.Dests, "General:\n  ConfigurationVersion: 2\n"); err != nil {
+			return err
+		}
+		ld.Cfg.RegisterReloadCallback(func(string, string) {
+			if h.onLoad != nil {
+				h.onLoad()
+			}
+		})
+		h.loaded[sci] = ld
 	}
 	h.ld = ld
-	ld.onLoad = nil
-	if err := h.switchTo("a"); err != nil {
+	if err := ld.SwitchTo("a"); err != nil {
 		return err
 	}
-	ld.onLoad = func() { h.reloadSig = true } // InMemCollector.sendReloadSignal: non-blocking send on a channel of capacity 1
+	// InMemCollector.sendReloadSignal: non-blocking send on a channel of capacity 1
+	h.onLoad = func() { h.reloadSig = true }
 	h.met = &metrics.MockMetrics{}
 	h.met.Start()
-	h.peers = &c12Peers{n: 1}
-	h.factory = &SamplerFactory{Config: ld.cfg, Logger: &logger.NullLogger{}, Metrics: h.met, Peers: h.peers}
+	h.peers = &C12Peers{}
+	h.peers.Set(1)
+	h.factory = &SamplerFactory{Config: ld.Cfg, Logger: &logger.NullLogger{}, Metrics: h.met, Peers: h.peers}
 	if err := h.factory.Start(); err != nil {
 		return err
 	}
+	h.namer = NewC12Namer(h.sc, h.params.ShareIdentical)
 	h.reloadSig, h.toSignal, h.clears, h.steps, h.panicMsg = false, 0, 0, 0, ""
 	h.pending = map[string]bool{}
 	h.local = map[string]map[string]Sampler{}
 	for _, w := range h.params.Workers {
 		h.local[w] = map[string]Sampler{}
 	}
-	h.names = map[any]c12Name{}
-	h.used = map[[2]int]int{}
 	return nil
-}
-
-// canon is the index (1-based) of the first definition in the scenario's table
-// that the property allows (d, p, l) to share an instance with; 0 if the table
-// has no such definition.
-func (h *c12Harness) canon(d string, p int, l c12Leaf) int {
-	for i, x := range h.sc.Tab {
-		if x.D != d || x.L != l {
-			continue
-		}
-		if h.params.ShareIdentical {
-			if (x.P == 0) == (p == 0) {
-				return i + 1
-			}
-		} else if x.P == p {
-			return i + 1
-		}
-	}
-	return 0
-}
-
-// nameNew names the dynsampler pointers of a sampler that was just created.
-func (h *c12Harness) nameNew(d string, s Sampler) {
-	rules, slots := c12Slots(s)
-	for i, sl := range slots {
-		if sl.ptr == nil {
-			continue
-		}
-		if _, ok := h.names[sl.ptr]; ok {
-			continue
-		}
-		p := 0
-		if rules {
-			p = i + 1
-		}
-		cr := h.canon(d, p, sl.leaf)
-		k := [2]int{cr, h.clears}
-		h.names[sl.ptr] = c12Name{cr: cr, ep: h.clears, dup: h.used[k]}
-		h.used[k]++
-	}
 }
 
 func (h *c12Harness) trace() *types.Trace {
@@ -547,17 +141,13 @@ func (h *c12Harness) Apply(a map[string]any) (err error) {
 				return fmt.Errorf("factory returned no sampler for %q", key)
 			}
 			h.local[w][key] = s
-			h.nameNew(d, s)
+			h.namer.NameNew(d, s, h.clears)
 		}
 		if rate, _, _, _ := s.GetSampleRate(h.trace()); rate < 1 {
 			h.panicMsg = fmt.Sprintf("sample rate %d < 1", rate)
 		}
 	case "ConfigChange":
-		next := "b"
-		if h.ld.current == "b" {
-			next = "a"
-		}
-		return h.switchTo(next) // the reload callback sets reloadSig
+		return h.ld.SwitchTo(h.ld.Other()) // the reload callback sets reloadSig
 	case "MonitorClear":
 		// InMemCollector.monitor: case <-i.reload: reloadConfigs(): ClearDynsamplers ...
 		if !h.reloadSig {
@@ -581,24 +171,13 @@ func (h *c12Harness) Apply(a map[string]any) (err error) {
 		h.pending[w] = false
 		clear(h.local[w])
 	case "PeersChanged":
-		h.peers.set(verifkit.Int(a, "n"))
+		h.peers.Set(verifkit.Int(a, "n"))
 	case "PeerCallback":
-		h.peers.fire()
+		h.peers.Fire()
 	default:
 		return fmt.Errorf("unknown action %v", a)
 	}
 	return nil
-}
-
-func (h *c12Harness) registered(ptr any) bool {
-	h.factory.mutex.Lock()
-	defer h.factory.mutex.Unlock()
-	for _, e := range h.factory.sharedDynsamplers {
-		if e.dynsampler == ptr {
-			return true
-		}
-	}
-	return false
 }
 
 func (h *c12Harness) Project() (any, error) {
@@ -610,32 +189,7 @@ func (h *c12Harness) Project() (any, error) {
 			s, ok := h.local[w][h.sc.Names[d]]
 			views := []any{}
 			if ok {
-				_, slots := c12Slots(s)
-				for _, sl := range slots {
-					if sl.bad != "" {
-						bad = append(bad, sl.bad)
-					}
-					v := map[string]any{"cr": 0, "ep": 0, "live": false, "goal": 0}
-					if sl.ptr != nil {
-						n, named := h.names[sl.ptr]
-						if !named {
-							bad = append(bad, "unnamed instance")
-						}
-						live := h.registered(sl.ptr)
-						v["cr"], v["ep"], v["live"] = n.cr, n.ep, live
-						if n.dup > 0 {
-							v["dup"] = n.dup
-						}
-						if sl.tput {
-							if live {
-								v["goal"] = sl.goal
-							} else {
-								v["goal"] = -1
-							}
-						}
-					}
-					views = append(views, v)
-				}
+				views = h.namer.View(h.factory, s, &bad)
 			}
 			per[d] = map[string]any{"c": ok, "s": views}
 		}
